@@ -87,8 +87,9 @@ mod params_builder {
 		/// Insert a named value (key, value) pair into the builder.
 		/// The _name_ and _value_ are delimited by the `:` token.
 		pub(crate) fn insert_named<P: Serialize>(&mut self, name: &str, value: P) -> Result<(), serde_json::Error> {
-			self.maybe_initialize();
+			// Taken before the start character is added: a failed first insert leaves the builder empty.
 			let len = self.bytes.len();
+			self.maybe_initialize();
 
 			if let Err(e) = serde_json::to_writer(&mut self.bytes, name) {
 				// Discard what has been written so far, the builder must stay valid.
@@ -107,8 +108,9 @@ mod params_builder {
 
 		/// Insert a plain value into the builder.
 		pub(crate) fn insert<P: Serialize>(&mut self, value: P) -> Result<(), serde_json::Error> {
-			self.maybe_initialize();
+			// Taken before the start character is added: a failed first insert leaves the builder empty.
 			let len = self.bytes.len();
+			self.maybe_initialize();
 
 			if let Err(e) = serde_json::to_writer(&mut self.bytes, &value) {
 				// Discard what has been written so far, the builder must stay valid.
